@@ -51,13 +51,13 @@ var opNames = map[Op]string{
 
 // Term is a hash-consed bit-vector (W>0) or boolean (W==0) expression.
 type Term struct {
-	ID   int
-	Op   Op
-	W    int
-	Args []*Term
-	Val  uint64 // constant value; for OExtract: lo ; for OSext: unused
-	Hi   int    // OExtract hi
-	Name string // OVar / OUF
+	ID    int
+	Op    Op
+	W     int
+	Args  []*Term
+	Val   uint64 // constant value; for OExtract: lo ; for OSext: unused
+	Hi    int    // OExtract hi
+	Name  string // OVar / OUF
 	epoch int
 }
 
